@@ -211,6 +211,7 @@ func verifH_C34_free_step() {
 // Header initialisation and validation agree with the documented layout.
 //
 //verif:bound segment size arbitrary
+//verif:ints bv
 func verifH_C34_header_layout() {
 	size := verifNondetInt("segsize")
 	verifAssume(size >= ShmHeaderSize)
@@ -244,6 +245,8 @@ func verifH_C34_header_layout() {
 //
 //verif:bound concrete packed table of 4093/4094 entries of 16 bytes; segment size and request symbolic
 //verif:maxsteps 80000000
+//verif:unwind 4200
+//verif:maxdecisions 20000
 func verifH_C34_table_full() {
 	full := verifNondetBool("full")
 	n := ShmMaxAllocs - 1
